@@ -144,10 +144,19 @@ class RW:
         return (FalsyVal if self.rng.random() < 0.1 else Val)(self.rng.randint(0, 3), self.serial, ret)
 
     def chain(self, ri):
-        """C3 order of the registry chain, from the *current* __bases__."""
+        """C3 order of the registry chain, from the *current* __bases__.  Where the base lists admit no C3 order (only
+        generated on purpose, C06) the order a freshly built registry graph of the same shape uses is the reference."""
         order = util.c3(self.regs[ri], lambda r: r.__bases__)
         if order is None:
-            return None
+            if not getattr(self, 'allow_inconsistent', False):
+                return None
+            twins = []
+            for r in self.regs:
+                twins.append(self.Reg(tuple(twins[self.index_of(b)] for b in r.__bases__)))
+            t = twins[ri]
+            if self.flavour == 'verifying':
+                t.lookup((), Interface, '')
+            return [next(i for i, x in enumerate(twins) if x is y) for y in t.ro]
         return [self.index_of(r) for r in order]
 
     def index_of(self, reg):
@@ -1116,6 +1125,9 @@ def run_c06(ctx, rng, job):
             w.register(ri, req, prov, name, w.newval())
             w.subscribe(ri, req, rng.choice([prov, None]), w.newval())
     kinds = []
+    # a share of the worlds may re-base registries into base lists without a C3 order (the library then falls back
+    # to its legacy order); the reference there is a freshly built registry graph of the same shape
+    w.allow_inconsistent = rng.random() < 0.2
 
     def check(tag, only=None):
         # members are probed in a seeded order, sometimes only one of them: probing an
@@ -1170,22 +1182,27 @@ def run_c06(ctx, rng, job):
                 w.check_subscriptions(sg, se, {'registry': ri, 'required': nm(lreq), 'provided': nm(sprov), 'chain': chain, 'after': tag})
 
     check('initial')
-    for step in range(rng.randint(2, 14 if big else 8)):
+    for step in range(rng.randint(2, 14 if big else 8) * (2 if w.allow_inconsistent else 1)):
         r = rng.random()
+        if w.allow_inconsistent:
+            r *= 0.62          # mostly re-basings in these worlds
         if r < 0.55 and n > 1:
             i = rng.randrange(1, n)
             parents = [k for k in range(1, n) if any(w.regs[k] in x.__bases__ for x in w.regs)]
             if parents and rng.random() < 0.7:
                 i = rng.choice(parents)        # re-base a registry that others are based on
-            idx = rng.sample(range(i), min(i, rng.choice([0, 1, 1, 2, 2])))
-            try:
-                w.pyreg[i].__bases__ = tuple(w.pyreg[j] for j in idx) or (object,)
-            except TypeError:
-                continue
+            idx = rng.sample(range(i), min(i, rng.choice([0, 1, 1, 2, 2] if not w.allow_inconsistent else [1, 2, 2, 2, 3])))
+            if not w.allow_inconsistent:
+                try:
+                    w.pyreg[i].__bases__ = tuple(w.pyreg[j] for j in idx) or (object,)
+                except TypeError:
+                    continue
             before = [w.chain(k) for k in range(n)]
             ctx.op('registry_bases', i, idx)
             w.regs[i].__bases__ = tuple(w.regs[j] for j in idx)
             after = [w.chain(k) for k in range(n)]
+            if w.allow_inconsistent and any(util.c3(r, lambda x: x.__bases__) is None for r in w.regs):
+                ctx.count('rebasings_into_inconsistent_base_lists')
             below = [k for k in range(n) if k != i and before[k] != after[k]]
             kinds.append('rebase')
             ctx.count('rebasings')
